@@ -202,11 +202,22 @@ def st_js_case(draw):
     recase = draw(st.booleans())
     kinds = set()
 
+    regap = draw(st.integers(0, 2)) == 1
+
     def K(kw):
+        words = kw.split(' ')
         if recase:
             kinds.add('keyword-case')
-            return ' '.join(respell.mixed_case(draw, w) for w in kw.split(' '))
-        return kw
+            words = [respell.mixed_case(draw, w) for w in words]
+        out = words[0]
+        for w in words[1:]:
+            gap = ' '
+            if regap:
+                gap = draw(st.sampled_from([' ', '  ', '\t', ' \t ', '   ', '\n']))
+                if gap != ' ':
+                    kinds.add('keyword-inner-whitespace')
+            out += gap + w
+        return out
     content = ''.join(draw(st.lists(st.sampled_from([p for p in PIECES if p not in ('a.zz', 'b.k', '\\n', '"""', "'''", '`', '${x}')]), min_size=1, max_size=4)))
     qc = draw(st.sampled_from(["'", '"']))
     use_lit = q['type'] == 'select' and not q.get('except') and draw(st.booleans())
